@@ -9,6 +9,11 @@ CONSTANTS
   Uris = {"u1"}
   Want <- WantM2
   CapOff = {}
+  CapMode <- ModeInferred
+  InitSize <- Size3
+  MaxSize = 3
+  Dirs = {"mod"}
+  SendGate = "configured"
   TTLPos = FALSE
   D = 0
   MaxTime = 0
@@ -19,6 +24,7 @@ CONSTANTS
   ListenOwns = TRUE
   ResubRace = TRUE
   GenCheck = TRUE
+  ColdBump = TRUE
   ModernUnsub = FALSE
   ForeignUnsub = TRUE
   Listeners = {}
